@@ -85,7 +85,7 @@ impl Check for C15 {
         vec!["writes reach the device in issue order; a torn write persists a prefix of the operation".into()]
     }
     fn budget(t: Tier) -> usize {
-        t.pick(600, 4000)
+        t.pick(600, 15_000)
     }
     fn gen(s: &mut Src, t: Tier) -> Case {
         let mut program = small_program(s);
